@@ -86,15 +86,30 @@ const (
 
 // saveMapGob saves a map to a file using gob encoding.
 func saveMapGob[K comparable, V any](filePath string, data map[K]V) error {
-	file, err := os.Create(filePath)
+	// Write to a temporary file and rename it over the target: if the process dies while the cache is being
+	// written, the previous complete file (or none) is left behind instead of a truncated one that can never be
+	// decoded again and would keep the node from starting.
+	file, err := os.CreateTemp(filepath.Dir(filePath), filepath.Base(filePath)+".tmp-*")
 	if err != nil {
 		return fmt.Errorf("failed to create file %s: %w", filePath, err)
 	}
-	defer file.Close()
+	tmpPath := file.Name()
+	defer os.Remove(tmpPath) //nolint:errcheck // no-op once the file has been renamed
 
 	encoder := gob.NewEncoder(file)
 	if err := encoder.Encode(data); err != nil {
+		file.Close() //nolint:errcheck
 		return fmt.Errorf("failed to encode to file %s: %w", filePath, err)
+	}
+	if err := file.Sync(); err != nil {
+		file.Close() //nolint:errcheck
+		return fmt.Errorf("failed to sync file %s: %w", filePath, err)
+	}
+	if err := file.Close(); err != nil {
+		return fmt.Errorf("failed to close file %s: %w", filePath, err)
+	}
+	if err := os.Rename(tmpPath, filePath); err != nil {
+		return fmt.Errorf("failed to replace file %s: %w", filePath, err)
 	}
 	return nil
 }
